@@ -2,8 +2,10 @@ import ProductMD.Proofs.Builders
 /-!
 # C12 — manifest builders file each entry exactly where the arguments say
 
-Model: `Model/Builders.lean` (`Rpms.add`, `Modules.add`, `ExtraFiles.add` as `State → Args → State × Out`;
-`relativeTo`).  The state is the public mapping as a `PyVal`; theorems quantify over ANY state (also an ill-shaped
+Model: `Model/Builders.lean` (`Rpms.add`, `Modules.add`, `ExtraFiles.add` as `State → Args → State × Out`, each the
+interpretation of the method's statement list as generated from the source, `Gen.*_add_script`; `relativeTo`).
+`Rpms.add_eq` / `Modules.add_eq` / `ExtraFiles.add_eq` (Proofs/Builders.lean, resting on the obligation `C12_scripts`)
+turn the interpreted list into "the documented refusals `rpmsCheck` / `modulesCheck` / `extraCheck`, then the insertion".  The state is the public mapping as a `PyVal`; theorems quantify over ANY state (also an ill-shaped
 one that was loaded), any arguments, any history.
 
 For each builder:
@@ -1204,6 +1206,74 @@ theorem C12_dump_for_tree (h : List ExtraArgs) (v a b : Str) :
     skip
     exact C12_dump_for_tree_aux top v a b hs
   all_goals exact absurd hs (by simp [shapeAt, allVals])
+/-! ## Whatever the refusals and their order: no raise after the first mutation
+
+The executable model interprets whatever statement list the source contains.  For EVERY list that consists of
+non-inserting statements followed by the insertion block — any refusals, in any order, known kinds or not — a call
+that raises returns the identical mapping.  (What `C12_scripts` adds is *which* refusals there are.) -/
+
+theorem C12_rpms_refusal_any_script (a : RpmsArgs) :
+    ∀ (checks : List BStep), (∀ st ∈ checks, st ≠ .insert) → ∀ (s : PyVal) (env : REnv) (e : Err),
+      (rpmsRun a (checks ++ [.insert]) s env).2 = .error e → (rpmsRun a (checks ++ [.insert]) s env).1 = s := by
+  intro checks
+  induction checks with
+  | nil =>
+    intro _ s env e h
+    simp only [List.nil_append, rpmsRun, ↓reduceIte] at h ⊢
+    cases hsr : env.srpm with
+    | none => simp [rpmsInsert, hsr]
+    | some k =>
+      simp only [rpmsInsert, hsr] at h ⊢
+      generalize hr : setPathS (rpmsLeaf env.nevra (rpmRecord env.sigkey a.path a.category)) [a.variant, a.arch, k] s = r at h ⊢
+      obtain ⟨s', o⟩ := r
+      cases o with
+      | ok u => simp at h
+      | error e' =>
+        simp only
+        have := setPathS_atomic _ (fun _ => True) (fun x e _ h => rpmsLeaf_atomic _ _ x e h) rfl
+          [a.variant, a.arch, k] s e' (fun _ _ => trivial) (by rw [hr])
+        rw [hr] at this
+        exact this
+  | cons st rest ih =>
+    intro hne s env e h
+    have hst : st ≠ .insert := hne st (List.mem_cons_self)
+    simp only [List.cons_append, rpmsRun, hst, ↓reduceIte] at h ⊢
+    cases hp : rpmsPure a st env with
+    | error e' => simp
+    | ok env' =>
+      rw [hp] at h
+      simp only at h ⊢
+      exact ih (fun x hx => hne x (List.mem_cons_of_mem _ hx)) s env' e h
+
+theorem C12_extra_refusal_any_script (a : ExtraArgs) :
+    ∀ (checks : List BStep), (∀ st ∈ checks, st ≠ .insert) → ∀ (s : PyVal) (e : Err),
+      (extraRun a (checks ++ [.insert]) s).2 = .error e → (extraRun a (checks ++ [.insert]) s).1 = s := by
+  intro checks
+  induction checks with
+  | nil =>
+    intro _ s e h
+    simp only [List.nil_append, extraRun, ↓reduceIte] at h ⊢
+    generalize hr : setPathS (extraLeaf a.arch (extraRecord a)) [a.variant] s = r at h ⊢
+    obtain ⟨s', o⟩ := r
+    cases o with
+    | ok u => simp at h
+    | error e' =>
+      simp only
+      have := setPathS_atomic _ (fun _ => True) (fun x e _ h => extraLeaf_atomic _ _ x e h)
+        (by simp [extraLeaf, lookup]) [a.variant] s e' (fun _ _ => trivial) (by rw [hr])
+      rw [hr] at this
+      exact this
+  | cons st rest ih =>
+    intro hne s e h
+    have hst : st ≠ .insert := hne st (List.mem_cons_self)
+    simp only [List.cons_append, extraRun, hst, ↓reduceIte] at h ⊢
+    cases hp : extraPure a st with
+    | error e' => simp
+    | ok u =>
+      rw [hp] at h
+      simp only at h ⊢
+      exact ih (fun x hx => hne x (List.mem_cons_of_mem _ hx)) s e h
+
 /-! ## Headline: any history, any further call -/
 
 /-- **C12 for `Rpms.add`** — after ANY history of calls, a further call with ANY arguments either is refused
